@@ -101,7 +101,7 @@ fn check_curve(c: &Curve, mode: GameMode, pts: &[PathControlPoint], l: Option<f6
         }
         let want = q * dist;
         let got = c.progress_to_dist(p);
-        if (got - want).abs() > 1e-12 * dist.max(1.0) {
+        if !((got - want).abs() <= 1e-12 * dist.max(1.0)) {
             return Err(format!("progress_to_dist({p:e}) = {got}, expected progress x distance = {want}"));
         }
         if !a.x.is_finite() || !a.y.is_finite() {
